@@ -28,6 +28,21 @@ func draw(t *rapid.T) sim.ChainCase {
 	g := sim.GenChain(t, sim.GenOpts{
 		Net:       sim.NetOpts{MaxForkHeight: rapid.SampledFrom([]int{6, 12, 25}).Draw(t, "forkSpan"), V2Only: rapid.IntRange(0, 3).Draw(t, "v2only") == 0},
 		MinBlocks: 8, MaxBlocks: 30, Reorgs: true, MaxReorg: 3, Profile: sim.Profile{Contracts: 1, MaxTxns: 5},
+		OnBlock: func(g *sim.Gen, b *sim.Builder) {
+			// a contract revised and then revised again / renewed by a later transaction of the same block: the
+			// second transaction's parent must still be the genuine accumulator element
+			if rapid.IntRange(0, 4).Draw(g.T, "reviseScenario") == 0 {
+				b.AfterV1(func() {
+					if b.V2Revise() {
+						if rapid.Bool().Draw(g.T, "againOrRenew") {
+							b.V2ReviseAgainInBlock()
+						} else {
+							b.V2RenewRevisedInBlock()
+						}
+					}
+				})
+			}
+		},
 		BeforeApply: func(g *sim.Gen, honest types.Block, bs consensus.V1BlockSupplement) {
 			if len(honest.Transactions)+len(honest.V2Transactions()) > 0 && rapid.IntRange(0, 1).Draw(g.T, "probeHere") == 0 {
 				g.NewAdv(honest).MembershipProbes()
